@@ -168,6 +168,60 @@ func headerKey(h http.Header) string {
 
 // LatestVersion is the version a cache that applies every 304 (C08) holds: the one built from
 // all 304s with restarted clocks.
+// VersionsApplied is Versions without the histories that leave out a 304 the cache has
+// demonstrably applied and written back: a foreground validation whose exchange returned the
+// stored reply with that 304's marker (REVALIDATED), in a scenario without store faults or
+// tampering, when neither the request nor the 304 carries no-store. Such a 304 cannot have been
+// "dropped because the entry changed in the meantime": the later state of the entry includes it.
+func VersionsApplied(o *world.Obs, r *world.Call, beforeSeq int64) []model.Version {
+	vs := Versions(o, r, beforeSeq)
+	if len(o.Sc.Faults) > 0 {
+		return vs
+	}
+	for _, st := range o.Sc.Steps {
+		if st.Op == "corrupt" {
+			return vs
+		}
+	}
+	var must []string
+	for _, c := range o.Calls {
+		if !c.Fg || !c.Completed || c.Kind != "resp" || c.Status != http.StatusNotModified || c.EndSeq >= beforeSeq || c.Ex < 0 || c.Ex >= len(o.Exchanges) {
+			continue
+		}
+		ex := o.Exchanges[c.Ex]
+		if ex.Resp == nil || world.TokOf(ex.Resp.Header) != r.Serial || ex.Resp.Header.Get("X-Val") != strconv.Itoa(c.Serial) {
+			continue
+		}
+		if model.ParseCC(c.RespHdr).Has["no-store"] || model.ParseCC(ReqHeader(ex.Req)).Has["no-store"] {
+			continue
+		}
+		must = append(must, "+s"+strconv.Itoa(c.Serial))
+	}
+	if len(must) == 0 {
+		return vs
+	}
+	var out []model.Version
+	for _, v := range vs {
+		ok := true
+		for _, m := range must {
+			// "+s3" must not match "+s31": the marker is followed by "+", " " or the end
+			i := strings.Index(v.Why+" ", m+"+")
+			j := strings.Index(v.Why+" ", m+" ")
+			if i < 0 && j < 0 {
+				ok = false
+				break
+			}
+		}
+		if ok {
+			out = append(out, v)
+		}
+	}
+	if len(out) == 0 {
+		return vs
+	}
+	return out
+}
+
 func LatestVersion(vs []model.Version) model.Version {
 	best := vs[0]
 	bestLen := -1
